@@ -716,8 +716,17 @@ def rule_constbranch(rows, prop):
                 m = re.fullmatch(r"(?:meta::)?to_value_v<(.+)>", src) or re.fullmatch(r"(\w+)\{+\}+", src)
                 if m and m.group(1) in params:
                     order.append(params.index(m.group(1)))
-                elif re.fullmatch(r"lambda@\d+\(\)", src) or a in tbl["allowed_call_args"].get(tag, {}):
-                    order.append(None)     # value prepared by a helper lambda (e.g. None-aware conversion), reviewed
+                elif re.fullmatch(r"lambda@\d+\(\)", src):
+                    # value prepared by a helper lambda (e.g. None-aware conversion): which parameter does it convert?
+                    ln = int(src[7:-2]); ps = set()
+                    for lr in rs:
+                        if lr["line"] == ln:
+                            for x in lr["facts"]:
+                                if x["k"] == "return":
+                                    ps |= set(m_.group(1) for m_ in re.finditer(r"to_value_v<(\w+)>", x["a"]) if m_.group(1) in params)
+                    order.append(params.index(ps.pop()) if len(ps) == 1 else None)
+                elif a in tbl["allowed_call_args"].get(tag, {}):
+                    order.append(None)
                 else:
                     findings.append(finding("R-CONSTBRANCH.arg", prop, o, init_str(callee, args), "argument '%s' (= %s) of the paired run-time call is not to_value_v<P> of a parameter of the specialisation %s" % (a, src, params)))
                     order.append(None)
